@@ -25,6 +25,7 @@ Record RunInv (g : graph) (evs : list event) (w : world) : Prop := {
   ri_wf : WF g w;
   ri_along : forall e, In e (log w) -> is_down g (e_src e) (e_dst e) = true;
   ri_state : forall d, nst w d = fold_state (nkind (gnode g d)) (init_st g d) (arr g (rev (log w)) d);
+  ri_ok : forall d, fold_ok (nkind (gnode g d)) (init_st g d) (arr g (rev (log w)) d) = true;
   ri_edge : forall u d, ~ is_entry g u -> is_down g u d = true -> permanent g d = true ->
             edge (rev (log w)) u d = fold_outs (nkind (gnode g u)) (init_st g u) (arr g (rev (log w)) u);
   ri_entry : forall n d, is_entry g n -> is_down g n d = true -> permanent g d = true ->
@@ -49,6 +50,7 @@ Proof.
   - intros d. apply nst_init.
   - intros; reflexivity.
   - intros; reflexivity.
+  - intros; reflexivity.
 Qed.
 
 Lemma inputs_app evs1 evs2 n : inputs (evs1 ++ evs2) n = inputs evs1 n ++ inputs evs2 n.
@@ -66,14 +68,15 @@ Lemma RunInv_step g evs w n x m w' :
   push (fuel_for g) g 0 n w x m = (w', SOk) ->
   RunInv g (evs ++ [EEmit n x m]) w'.
 Proof.
-  intros Hdag [i1 i2 i3 i4 i5] Hent H.
+  intros Hdag [i1 i2 i3 i3b i4 i5] Hent H.
   destruct (push_spec g Hdag _ 0 n w x m w' i1 H) as [new [S [O _]]].
-  destruct S as [s1 s2 s3 s4 s4b s5 s6].
+  destruct S as [s1 s2 s3 s4 s4b s5 s5b s6].
   assert (Hlog : rev (log w') = rev (log w) ++ new) by (rewrite s1, rev_app_distr, rev_involutive; reflexivity).
   constructor.
   - exact s2.
   - intros e He. rewrite s1 in He. apply in_app_or in He as [He|He]; [apply s4b; apply in_rev; exact He | auto].
   - intros d. rewrite Hlog, arr_app, fold_state_app, <- i3. apply s5.
+  - intros d. rewrite Hlog, arr_app, fold_ok_app, i3b, <- i3. apply s5b.
   - intros u d Hu Hdn Hp. rewrite Hlog, edge_app, arr_app, fold_outs_app, <- i3, (i4 u d Hu Hdn Hp). f_equal.
     destruct (lt_eq_lt_dec u n) as [[Hlt|Heq]|Hgt].
     + rewrite edge_none by (intros e He; left; destruct (s4 e He) as [? _]; lia).
@@ -131,7 +134,7 @@ Theorem edge_faithful g evs w u d :
     else fold_outs (nkind (gnode g u)) (init_st g u) (arr g (rev (log w)) u).
 Proof.
   intros Hdag Hev H Hu Hd Hp.
-  pose proof (pipeline_dataflow g evs w Hdag Hev H) as [i1 i2 i3 i4 i5].
+  pose proof (pipeline_dataflow g evs w Hdag Hev H) as [i1 i2 i3 i3b i4 i5].
   assert (Hdn : is_down g u d = true).
   { unfold is_down. rewrite Hu. cbn [existsb]. rewrite Nat.eqb_refl.
     apply Nat.ltb_lt in Hd. rewrite Hd. reflexivity. }
